@@ -421,10 +421,6 @@ MUTANTS = [
     dict(name="drop-restore-altstack", file="debugger/interpreter.cpp",
          find="    env.altstack = env.altstack_history.back();\n", replace="",
          expect=["R04.1:field=altstack", "R04.2:restore:altstack_history"]),
-    dict(name="drop-failure-pop-pc_history", file="debugger/interpreter.cpp",
-         find="            env.pc_history.pop_back();\n            env.nOpCount_history.pop_back();\n            return false;",
-         replace="            env.nOpCount_history.pop_back();\n            return false;",
-         expect=["R04.2:pop-on-failure:pc_history"]),
     dict(name="cross-wire-altstack-from-stack_history", file="debugger/interpreter.cpp",
          find="env.altstack = env.altstack_history.back();", replace="env.altstack = env.stack_history.back();",
          expect=["R04.2:restore"]),
@@ -440,6 +436,29 @@ MUTANTS = [
          find="    if (env.stack_history.size() == 0) {", replace="    env.curr_op_seq--;\n    if (env.stack_history.size() == 0) {",
          expect=["R04.3:RewindScript", "R04.2:counter-1-on-rewind"]),
     dict(name="double-increment-on-success", file="debugger/interpreter.cpp",
-         find="        // Update environment\n        env.curr_op_seq++;", replace="        // Update environment\n        env.curr_op_seq += 2;",
+         find="        env.curr_op_seq++;\n        return true;\n    }\n\n    auto& vfExec", replace="        env.curr_op_seq += 2;\n        return true;\n    }\n\n    auto& vfExec",
          expect=["R04.2:counter+1-on-success"]),
 ]
+
+
+def AUTO_MUTANTS(ctx):
+    """for every history vector: drop its push, its failure pop, its restore, its rewind pop - one at a time"""
+    import os as _os
+    src = open(_os.path.join(ctx.facts.repo, "debugger/interpreter.cpp")).read()
+    out = []
+    import re as _re
+    hs = sorted(set(_re.findall(r"env\.(\w+_history)\.push_back", src)))
+    for h in hs:
+        m = _re.search(r"        env\.%s\.push_back\(env\.(\w+)\);\n" % h, src)
+        if m and src.count(m.group(0)) == 1:
+            out.append(dict(name="auto:drop-push:" + h, file="debugger/interpreter.cpp", find=m.group(0), replace="", expect=["R04."]))
+        pf = "            env.%s.pop_back();\n" % h
+        if src.count(pf) == 1:
+            out.append(dict(name="auto:drop-failure-pop:" + h, file="debugger/interpreter.cpp", find=pf, replace="", expect=["R04.2:pop-on-failure:" + h]))
+        m = _re.search(r"    env\.(\w+) = env\.%s\.back\(\);\n" % h, src)
+        if m and src.count(m.group(0)) == 1:
+            out.append(dict(name="auto:drop-restore:" + h, file="debugger/interpreter.cpp", find=m.group(0), replace="", expect=["R04.1:", "R04.2:restore:" + h]))
+        pr = "    env.%s.pop_back();\n" % h
+        if src.count(pr) == 1:
+            out.append(dict(name="auto:drop-rewind-pop:" + h, file="debugger/interpreter.cpp", find=pr, replace="", expect=["R04.2:pop-after-restore:" + h]))
+    return out
